@@ -638,6 +638,12 @@ pub fn run_scenario(sc: &Scenario, opts: &RunOpts) -> RunReport {
                     // a built / restored / inspected sampler has the pristine image
                     if let Outcome::Image(_) = r.outcome {
                         r.outcome = Outcome::Image(ref_digest);
+                    } else if matches!(inner, Op::Restart { .. })
+                        && matches!(&r.outcome, Outcome::Err(m) if m.starts_with("persist failed"))
+                    {
+                        // this format cannot represent the sampler at all (e.g. JSON and
+                        // a map with non-string keys): the premise of the property is not
+                        // met; the operation is expected to fail the same way in the run
                     } else if matches!(inner, Op::Restart { .. }) {
                         // the model says restore succeeds with the pristine image
                         violations.push(Violation {
